@@ -18,7 +18,7 @@ func init() {
 }
 
 func checkC01(w *World, r *Report) {
-	r.Decides = "C01 is decided in its structural part only: (a) all writes of an apply call go to the one batch of the apply context, none to the DB directly; (b) the commit is crossed after the handlers and never inside a command; (c) the applied-index key is written into the same batch from the entry's own index before the commit; (d) reads inside the apply path go through the context's batch and only after it was made indexed (the old batch applied into it); (e) the read that feeds prev_kv/deleted precedes the write; (f) keys handed to writes and bounds come only from the user-key encoder or a fresh incremented copy of the maximum user key, bookkeeping keys are touched only by the commit function and the index readers, package-level key slices are never handed to a function that writes through its parameter; (g) range reads are bounded on both sides and the single-key read is exact; (h) every command kind and every transaction operation kind has a handler; (i) Update applies every entry of an apply call, one by one from entries[0] to the last, and never leaves its loop with success from inside an iteration."
+	r.Decides = "C01 is decided in its structural part only: (a) all writes of an apply call go to the one batch of the apply context, none to the DB directly; (b) the commit is crossed after the handlers and never inside a command; (c) the applied-index key is written into the same batch from the entry's own index before the commit; (d) reads inside the apply path go through the context's batch and only after it was made indexed (the old batch applied into it); (e) the read that feeds prev_kv/deleted precedes the write; (f) keys handed to writes and bounds come only from the user-key encoder or a fresh incremented copy of the maximum user key, bookkeeping keys are touched only by the commit function and the index readers, package-level key slices are never handed to a function that writes through its parameter; (g) range reads are bounded on both sides and the single-key read is exact; (h) every command kind and every transaction operation kind has a handler; (i) Update applies every entry of an apply call, one by one from entries[0] to the last, and never leaves its loop with success from inside an iteration - likewise the loops over a sequence, a batch and a transaction branch; (j) the stored key is an injective, order preserving encoding of the user key (the obligations C12.a-c)."
 	r.NotDecided = []string{"that Pebble's batch and iterator semantics compose to sorted-map behaviour", "the arithmetic of the bound increment", "response values"}
 	r.Assume = []string{"pebble: a batch is applied atomically by Commit; a non-indexed batch cannot be read", "SeekPrefixGE with a comparer whose Split is the identity is an exact-match seek"}
 	a := w.FsmAnchors()
@@ -35,7 +35,8 @@ func checkC01(w *World, r *Report) {
 	c01KeySpace(w, r, a, "C01.f", "f-key-space")
 	c01Bounds(w, r, a, "C01.g", "g-bounded-exact-reads")
 	c01Exhaustive(w, r, a)
-	applyLoopComplete(w, r, a.Update, a.isHandlerStep, "C01.i", "i-every-entry-applied")
+	applyLoopComplete(w, r, a, "C01.i", "i-every-entry-applied")
+	c12Layout(w, r, "C01", ".j1", ".j2", ".j3")
 }
 
 // ---- C01.a ----
